@@ -7,13 +7,13 @@ CONSTANTS
   ImplSubs <- mcSubs
   ImplTopics <- mcTopics
   MsgKinds <- mcMsgKinds
-  BatchMax = 2
+  BatchMax = 1
   MaxMsgs = 3
-  MaxTime = 2
-  TickDs = {2}
+  MaxTime = 6
+  TickDs = {1, 2}
   PullMaxes = {3}
   Ops <- mcOps
-  AttBound = 1
+  AttBound = 2
   ChainAnyKey = FALSE
 ACTION_CONSTRAINT ReportCex
 CONSTRAINT Bounded
